@@ -256,13 +256,13 @@ Definition r8_state (bw : Z) (item icur w : N) (x1 x2 x3 x4 x5 x6 x7 : Z) (c : N
      arrays := [("_buffer._data", zs buf)] |}.
 
 Lemma read5_body g cs bw item icur w x1 x2 x3 x4 x5 x6 x7 c buf :
-  Forall (fun x => (x < 256)%N) buf -> (item < 2 ^ icur)%N -> (icur + w <= 8)%N -> (c < 256)%N -> (N.to_nat (c / 8) < List.length buf)%nat ->
+  Forall (fun x => (x < 256)%N) buf -> (item < 2 ^ icur)%N -> (icur + w <= 8)%N -> (1 <= w)%N -> (c < 256)%N -> (N.to_nat (c / 8) < List.length buf)%nat ->
   exists y1 y2 y3 y4 y5 y6 y7,
   exec leaf_ftable cs (20 + g) (r8_state bw item icur w x1 x2 x3 x4 x5 x6 x7 c buf) (loop_body BitReadStreamT_100__read_5)
   = let '(c', item', icur', w') := read_chunk buf c item icur w in
     ONormal (r8_state bw item' icur' w' y1 y2 y3 y4 y5 y6 y7 c' buf).
 Proof.
-  intros Hb Hitem Hfit Hc Hidx. do 7 eexists. unfold r8_state, read_chunk.
+  intros Hb Hitem Hfit Hw1 Hc Hidx. do 7 eexists. unfold r8_state, read_chunk.
   pose proof (shiftr3 c) as Hs3. pose proof (land7 c) as Hl7.
   pose proof (N.mod_lt c 8 ltac:(lia)) as Hm8.
   set (cw := N.min (8 - N.land c 7) w).
@@ -301,7 +301,7 @@ Proof.
                       = Some 1).
       { unfold r8_state. cbn -[conv Z.of_N]. rewrite conv_bool_of_N. destruct (N.eqb_spec w 0); [contradiction|reflexivity]. }
       rewrite Hcond. cbn [Z.eqb].
-      destruct (read5_body (S g) cs bw item icur w x1 x2 x3 x4 x5 x6 x7 c buf Hb Hitem Hfit8 Hc) as (y1 & y2 & y3 & y4 & y5 & y6 & y7 & E); [lia|].
+      destruct (read5_body (S g) cs bw item icur w x1 x2 x3 x4 x5 x6 x7 c buf Hb Hitem Hfit8 ltac:(lia) Hc) as (y1 & y2 & y3 & y4 & y5 & y6 & y7 & E); [lia|].
       rewrite E. cbn [read_loop]. rewrite (proj2 (N.eqb_neq w 0) Hw0).
       unfold read_chunk. cbv beta iota zeta.
       pose proof (land7 c) as Hl7. pose proof (N.mod_lt c 8 ltac:(lia)) as Hm8.
